@@ -243,6 +243,7 @@ pub fn class_of_big(v: &BigUint) -> String {
 
 thread_local! {
     static LAST_PANIC: RefCell<Option<(String, String)>> = const { RefCell::new(None) };
+    static CATCH_DEPTH: RefCell<u32> = const { RefCell::new(0) };
 }
 
 pub fn install_panic_hook() {
@@ -258,6 +259,10 @@ pub fn install_panic_hook() {
             .location()
             .map(|l| format!("{}:{}", l.file(), l.line()))
             .unwrap_or_else(|| "<unknown>".into());
+        if CATCH_DEPTH.with(|d| *d.borrow()) == 0 {
+            // a panic of the harness itself (not of monitored code): make it visible
+            eprintln!("[vh] harness panic: {msg} at {loc}");
+        }
         LAST_PANIC.with(|p| *p.borrow_mut() = Some((msg, loc)));
     }));
 }
@@ -297,7 +302,10 @@ impl Panicked {
 
 pub fn catch<T>(f: impl FnOnce() -> T) -> Result<T, Panicked> {
     LAST_PANIC.with(|p| *p.borrow_mut() = None);
-    match catch_unwind(AssertUnwindSafe(f)) {
+    CATCH_DEPTH.with(|d| *d.borrow_mut() += 1);
+    let res = catch_unwind(AssertUnwindSafe(f));
+    CATCH_DEPTH.with(|d| *d.borrow_mut() -= 1);
+    match res {
         Ok(v) => Ok(v),
         Err(_) => {
             let (msg, loc) = LAST_PANIC
